@@ -1,0 +1,9 @@
+//go:build !verif
+
+package kafka
+
+// No-op twins of verif_reader_on.go: the RL.* hook lines in reader.go are dead code without the `verif` tag.
+
+func verifErrClass(err error) string { return "" }
+
+func verifConnOffset(c *Conn) int64 { return 0 }
